@@ -196,7 +196,7 @@ type commuteSite struct {
 func newEnc(w *World, ss *SpecSet, fn *ssa.Function) *enc {
 	e := newEnc0(w, ss, fn)
 	e.so.of(strSliceTy)
-	for _, n := range []string{"Itoa", "Upper", "Lower", "SplitF", "JoinF", "TrimSpaceF", "TrimLeftF"} {
+	for _, n := range []string{"Itoa", "Upper", "Lower", "SplitF", "JoinF", "TrimSpaceF", "TrimLeftF", "AtoiV"} {
 		e.ufs[n] = true
 	}
 	e.axUsed = map[string]bool{}
@@ -530,6 +530,13 @@ func (e *enc) globalKey(g *ssa.Global) string { return "G:" + g.Pkg.Pkg.Name() +
 func (e *enc) ensureGlobal(g *ssa.Global) string {
 	key := e.globalKey(g)
 	if _, ok := e.mem[key]; !ok {
+		if v, ok := e.init[key]; ok {
+			// first touched on a sibling path: on this path it still holds its initial value
+			e.mem[key] = v
+			return key
+		}
+	}
+	if _, ok := e.mem[key]; !ok {
 		elem := g.Type().(*types.Pointer).Elem()
 		e.memSort[key] = e.so.of(elem)
 		e.memTy[key] = elem
@@ -560,6 +567,12 @@ func (e *enc) ensureGlobal(g *ssa.Global) string {
 func (e *enc) heapKey(elem types.Type) string {
 	es := e.so.of(elem)
 	key := "H:" + es
+	if _, ok := e.mem[key]; !ok {
+		if v, ok := e.init[key]; ok {
+			e.mem[key] = v
+			return key
+		}
+	}
 	if _, ok := e.mem[key]; !ok {
 		e.memSort[key] = fmt.Sprintf("(Array Int %s)", es)
 		e.memTy[key] = elem
